@@ -12,6 +12,7 @@ import (
 	"time"
 
 	"mellium.im/xmlstream"
+	"mellium.im/xmpp"
 	"mellium.im/xmpp/blocklist"
 	"mellium.im/xmpp/bookmarks"
 	"mellium.im/xmpp/carbons"
@@ -457,6 +458,101 @@ func modelCases2(c *ctx) {
 			}
 		}
 	}
+	// internal/saslerr and the MUC join payload (through the export hooks)
+	tbl := saslTable(repoDir())
+	if tbl.ok {
+		r.Mark("case model2 sasl")
+		for _, n := range saslValues {
+			w := saslCondW{N: n}
+			out, toks := written(func() xml.TokenReader { return xmpp.VerifSASLCondition(n).TokenReader() })
+			if out == nil && toks == nil {
+				// nothing written is a legal output here: re-tokenising the empty document gives no tokens
+				if p := guard("TokenReader", func() ([]byte, []xml.Token, error) { return encodeTokens(xmpp.VerifSASLCondition(n).TokenReader()) }); p.panicked != "" || p.err != nil {
+					continue
+				}
+			}
+			line := fmt.Sprintf("enc saslcond %s %d", tbl.v(), n)
+			r.Line(line, common.EncToks(toks))
+			r.Case(line, true, "model/saslcond")
+			if len(toks) > 0 {
+				var d saslCondW
+				if pan, err := safeUnmarshal(out, &d); pan == "" {
+					obs := "ERR"
+					if err == nil {
+						obs = fmt.Sprint(d.N)
+					}
+					r.Line("dec saslcond "+tbl.v()+" "+common.EncToks(toks), obs)
+				}
+			}
+			_ = w
+		}
+		for k := 0; k < r.Pick(120, 1500); k++ {
+			g := &gen{r: common.NewRand(c.rnd.Uint64())}
+			e := saslErrW{Cond: saslValues[g.intn(len(saslValues))], Lang: []string{"", "en", "de-CH"}[g.intn(3)], Text: g.opt()}
+			ev := func(x *saslErrW) string { return vl(va(fmt.Sprint(x.Cond)), va(x.Lang), va(x.Text)) }
+			if !xmlValid(e.Text) {
+				continue
+			}
+			if out, toks := written(func() xml.TokenReader { return xmpp.VerifSASLError(e.Cond, e.Lang, e.Text).TokenReader() }); toks != nil {
+				c.pair("saslerr", tbl.v()+" "+ev(&e), out, toks, tbl.v(), func() (string, error) {
+					var d saslErrW
+					err := xml.Unmarshal(out, &d)
+					return ev(&d), err
+				})
+			}
+		}
+	} else {
+		r.Notes = append(r.Notes, "saslerr table not found: "+tbl.why)
+		r.Line("enc saslcond - 0", "table-not-found")
+	}
+	for k := 0; k < r.Pick(150, 2000); k++ {
+		g := &gen{r: common.NewRand(c.rnd.Uint64())}
+		var w mucJoinW
+		if g.boolean() {
+			v := g.u64()
+			w.MaxStanzas = &v
+		}
+		if g.boolean() {
+			v := g.u64()
+			w.MaxChars = &v
+		}
+		if g.boolean() {
+			d := []time.Duration{0, time.Second, -90 * time.Second, 1500 * time.Millisecond}[g.intn(4)]
+			w.Duration = &d
+		}
+		if g.boolean() {
+			t := g.time(false)
+			if !inRange(t) {
+				continue
+			}
+			w.Since = &t
+		}
+		w.Password = g.opt()
+		if !xmlValid(w.Password) {
+			continue
+		}
+		ou := func(p *uint64) string {
+			if p == nil {
+				return "[]"
+			}
+			return vl(va(strconv.FormatUint(*p, 10)))
+		}
+		os := func(p *string) string {
+			if p == nil {
+				return "[]"
+			}
+			return vl(va(*p))
+		}
+		jv := func(x *mucJoinW) string { return vl(ou(x.MaxStanzas), ou(x.MaxChars), ou(x.seconds()), os(x.since()), va(x.Password)) }
+		if out, toks := written(func() xml.TokenReader { return muc.VerifJoinConfig(w.opts()...).TokenReader() }); toks != nil {
+			c.pair("mucjoin", jv(&w), out, toks, "", func() (string, error) {
+				var d mucJoinW
+				err := xml.Unmarshal(out, &d)
+				return jv(&d), err
+			})
+		}
+	}
+
 	// pubsub payloads: what Publish / Delete put on the wire (inside the <iq/>)
 	for k := 0; k < r.Pick(25, 200); k++ {
 		g := &gen{r: common.NewRand(c.rnd.Uint64())}
@@ -498,7 +594,24 @@ func modelCases2(c *ctx) {
 		} else {
 			ib, _, _ := encodeTokens(item())
 			c.pair("publish", vl(va(node), va(id))+" "+rawToks(ib), nil, payload, "", nil)
-			r.Line("dec pubid "+common.EncToks(payload), dashS(id))
+			// the publish response has the shape of the request: the real response decoder reads the id
+			var buf bytes.Buffer
+			enc := xml.NewEncoder(&buf)
+			okEnc := true
+			for _, t := range payload {
+				if err := enc.EncodeToken(t); err != nil {
+					okEnc = false
+					break
+				}
+			}
+			if okEnc && enc.Flush() == nil {
+				var d pubRespW
+				obs := "ERR"
+				if pan, err := safeUnmarshal(buf.Bytes(), &d); pan == "" && err == nil {
+					obs = dashS(d.ID)
+				}
+				r.Line("dec pubid "+common.EncToks(payload), obs)
+			}
 		}
 	}
 }
